@@ -309,7 +309,7 @@ func runC30(c *fw.Ctx) {
 	c.ParDo(n, 0, func(k int) {
 		i := hSpread(k, n)
 		v := hVecAt(c30Dims, i)
-		if !c.Thorough() && (c25A[v[0]] == '2' || c25A[v[2]] == '2' || c25D[v[1]] == 'E' || c25D[v[3]] == 'E') {
+		if !c.Thorough() && (c25A[v[0]] == '2' || c25A[v[2]] == '2' || c25A[v[0]] == 'e' || c25A[v[2]] == 'e' || c25D[v[1]] == 'E' || c25D[v[3]] == 'E') {
 			return // quick: 12 of the 20 commits
 		}
 		sig, class := e.run(v)
